@@ -310,6 +310,15 @@ def r4_skip_predicates(ctx):
     fa_ = ctx.func('xdoctest.doctest_example.DocTest.anything_ran')
     ok = any(isinstance(x, ast.Attribute) and x.attr == 'logged_stdout' for x in ast.walk(fa_.node)) and any(isinstance(x, ast.Call) and is_name(x.func, 'len') for x in ast.walk(fa_.node))
     rep.ob('C15.R4', ctx.loc(fa_, fa_.node), 'anything_ran() <=> len(logged_stdout) > 0', ok, 'plugin predicate reads the stdout log' if ok else 'anything_ran no longer tests the stdout log', nontrivial=False, anchor=fa_.qualname)
+    for x in ast.walk(fa_.node):
+        if isinstance(x, ast.Compare) and len(x.ops) == 1 and isinstance(x.left, ast.Call) and is_name(x.left.func, 'len') and isinstance(x.comparators[0], ast.Constant) and isinstance(x.comparators[0].value, int):
+            c0, op = x.comparators[0].value, type(x.ops[0])
+            tv = lambda v: {ast.Gt: v > c0, ast.GtE: v >= c0, ast.Lt: v < c0, ast.LtE: v <= c0, ast.Eq: v == c0, ast.NotEq: v != c0}[op]
+            good = tv(0) is False and tv(1) is True and tv(2) is True
+            rep.ob('C15.R4', ctx.loc(fa_, x), ctx.src(x), good,
+                   'false for an empty log, true as soon as one part stored its output' if good else
+                   'the "anything ran" test is %s for an empty log and %s for one entry: the plugin\'s "nothing ran -> skipped" no longer coincides with the native all-parts-skipped' % (tv(0), tv(1)),
+                   anchor=fa_.qualname)
     # plugin: skip when nothing ran, after run
     fr = ctx.func('xdoctest.plugin.XDoctestItem.runtest')
     gr = ctx.cfg(fr)
@@ -478,6 +487,7 @@ RN = 'xdoctest/runner.py'
 DE = 'xdoctest/doctest_example.py'
 MA = 'xdoctest/__main__.py'
 VARIANTS = [
+    fire('anything-ran-always-true', 'C15.R4', (DE, "        return len(self.logged_stdout) > 0\n", "        return len(self.logged_stdout) >= 0\n")),
     fire('pytest-skip-escapes-the-native-run', 'C15.R7', (DE, "                except (exceptions.ExitTestException,\n                        exceptions._pytest.outcomes.Skipped) as ex:\n", "                except exceptions.ExitTestException as ex:\n")),
     fire('skipped-reraised-in-raise-mode', 'C15.R3b', (DE, "                except (exceptions.ExitTestException,\n                        exceptions._pytest.outcomes.Skipped) as ex:\n", "                except (exceptions.ExitTestException,\n                        exceptions._pytest.outcomes.Skipped) as ex:\n                    if on_error == 'raise':\n                        raise\n")),
     fire('native-exit-status-is-the-count', 'C15.R6', ('xdoctest/__main__.py', "    if n_failed > 0:\n        return 1\n    else:\n        return 0\n", "    return n_failed\n")),
